@@ -24,3 +24,20 @@ def core(trace):
                     "npub": [x["m"] for x in e["npub"]], "npriv": [x["m"] for x in e["npriv"]], "ncons": e["ncons"],
                     "g": {"has": g["has"], "m": g["m"], "lc": g["lc"], "onem": g["onem"], "onelc": g["onelc"]}})
     return {"id": trace["id"], "P": trace["cfg"]["P"], "ign": trace["ign"], "events": evs}
+
+
+def ref(trace):
+    """View for TraceRef (C05) / TraceFxp (C14): operand and result values of every call."""
+    evs = []
+    mode = trace.get("meta", {}).get("mode", "plain")
+    base = {"plain": 0, "ign": 0, "g1": 1, "g0": 1, "g1ign": 1, "g0ign": 1, "g11": 2, "g10": 2, "g01": 2}.get(mode, 0)
+    for e in trace["events"]:
+        if e["op"] in ("new", "end") or e["op"].endswith("_enter"):
+            continue
+        g = e["g"]
+        evs.append({"seq": e["seq"], "op": e["op"], "name": e["name"], "out": e["out"], "exc": e["exc"], "depth": e["depth"],
+                    "args": [[{"k": x["k"], "v": x["v"], "w": x["w"], "d": x["d"]} for x in a] for a in e["args"]],
+                    "res": [{"k": x["k"], "v": x["v"], "w": x["w"], "d": x["d"], "m": x["m"]} for x in e["res"]],
+                    "gfalse": bool(g["has"] and g["v"] == 0)})
+    return {"id": trace["id"], "P": trace["cfg"]["P"], "bitlength": trace["cfg"]["bitlength"], "resolution": trace["cfg"].get("resolution", 0),
+            "ign": trace["ign"], "basedepth": base, "events": evs}
